@@ -133,6 +133,10 @@ def context_cases(rnd):
         cases.append(("static-text", "NAMEDREF", nm, "x&%sy" % nm, "x" + val + "y", None))
         if len(val) > 1 or ord(val[0]) > 0x7f:
             cases.append(("attr-value", "NAMEDREF", nm, '<v a="&%s"/>' % nm, val, None))
+    # an ampersand followed by letters and digits outside ASCII and a semicolon is no character reference: it is text
+    for k, t in enumerate(["Q&A环节; R&D部;", "caf&eé;", "&aé;", "&x٣;", "&é;"]):
+        cases.append(("static-text", "NOREF", "noref-%d" % k, "x%sy" % t, "x" + t + "y", None))
+        cases.append(("attr-value", "NOREF", "noref-%d" % k, '<v a="%s" />' % t, t, None))
     # names: identifier-like strings (the parser's own grammar for names)
     for n in ("ab", "a-b", "a.b", "a_b", "A9", "a--b", "a.b-c"):
         cases.append(("tag-name", "NAME", n, "<%s/>" % n, n if not any(c.isupper() for c in n) else n, None))
